@@ -17,6 +17,7 @@ int vsim_peek_inlen(const struct ssl *ssl);
 int vsim_peek_insize(const struct ssl *ssl);
 int vsim_peek_tls13_group(const struct ssl *ssl);
 int vsim_peek_outsize(const struct ssl *ssl);
+const void *vsim_peek_outbuf(const struct ssl *ssl);
 int vsim_peek_err(const struct ssl *ssl);
 int vsim_peek_dtls_flight_done(const struct ssl *ssl);
 int vsim_peek_dtls_appdata_exch(const struct ssl *ssl);
